@@ -53,7 +53,10 @@ func vhDurablyDone(im *kit.Image) bool {
 // second engine instance from the durable image, and check C09 / C10.
 func vhCrashRecover(orc int, fam int, mode int, second bool) {
 	// every action gets a retry budget of 0 or 1 (a budget left over at the crash must not cause a re-run)
-	vhRetries = api.Choose("retries", 2)
+	vhRetries = 0
+	if fam == famSeqSmall {
+		vhRetries = api.Choose("retries", 2)
+	}
 	w1 := vhNewWorld(vhCfg(fam), mode, 0)
 	init := w1.vault.Snapshot()
 	w1.run(false)
@@ -62,7 +65,7 @@ func vhCrashRecover(orc int, fam int, mode int, second bool) {
 	finalStatus := w1.vault.Img[w1.plan.ID].Status
 
 	c := api.NondetInt("crash")
-	api.Assume(c >= 0 && c <= n)
+	api.Assume(api.IteBool(c >= 0, c <= n, false))
 	img := w1.vault.ImageAt(c, init)
 	// only plans durably Running are resumed (C11); everything else is left alone
 	api.Assume(img[w1.plan.ID].Status == workflow.Running)
@@ -77,7 +80,7 @@ func vhCrashRecover(orc int, fam int, mode int, second bool) {
 		_ = init2
 		n2 := len(w2.vault.Log)
 		c2 := api.NondetInt("crash2")
-		api.Assume(c2 >= 0 && c2 <= n2)
+		api.Assume(api.IteBool(c2 >= 0, c2 <= n2, false))
 		img2 := w2.vault.ImageAt(c2, vhImgCopy(img))
 		api.Assume(img2[w2.plan.ID].Status == workflow.Running)
 		api.Reach("second crash during recovery")
@@ -172,6 +175,12 @@ func vhCheckRecovery(orc int, w1, w2 *vhWorld, img map[uuid.UUID]*kit.Image, uni
 		w2.checkC03x(true)
 	}
 	if orc&oC10 != 0 {
+		// a second crash at any point of the recovering run must leave the plan resumable: durably Running or terminal,
+		// never set back to a state that the next start-up would not pick up (the crash index is again a solver variable)
+		c2 := api.NondetInt("recovery_crash" + sfx)
+		api.Assume(api.IteBool(c2 >= 0, c2 <= len(w2.vault.Log), false))
+		st2 := w2.vault.StatusAt(p2.ID, c2, img[p2.ID].Status)
+		api.Assert(api.IteBool(st2 == workflow.Running, true, vhStatusTerminal(st2)), "C10: at every crash point of the recovering run the plan is durably Running or terminal"+sfx)
 		w2.checkTerminalConsistent("C10" + sfx)
 		// deferred checks of entered, non-bypassed scopes have run
 		planBypassed := p2.BypassChecks != nil && w2.img(p2.BypassChecks.ID).Status == workflow.Completed
